@@ -182,6 +182,11 @@ func (p *ProofD) MergeProofP(proofP *ProofP, _ *gabikeys.PublicKey) {
 func (p *ProofD) reconstructRangeProofStructures(pk *gabikeys.PublicKey) error {
 	p.cachedRangeStructures = make(map[int][]*rangeproof.ProofStructure)
 	for index, proofs := range p.RangeProofs {
+		// A range proof is only meaningful, and is only verified below, when it is tied to the
+		// response of a hidden attribute of this proof.
+		if p.AResponses[index] == nil {
+			return errors.New("range proof on an attribute that is not hidden")
+		}
 		p.cachedRangeStructures[index] = []*rangeproof.ProofStructure{}
 		for _, proof := range proofs {
 			s, err := proof.ExtractStructure(index, pk)
